@@ -31,6 +31,28 @@ Race3 ==   \* three creators over two names (a sample of the schedules is run)
   { Race(1, V1, p, <<New(a), New(b), New(c)>>, s, <<3, 1, 2>>) :
        p \in Pres, a \in {"x"}, b \in Names, c \in Names, s \in Scheds(3, 3) }
 
+\* ---- groups that pre-exist in a subset of the v1 hierarchies (an administrator's mkdir), every
+\* proper non-empty subset, for New / Nest / top-level New, followed by Destroy and by a re-creation
+O(o, h, name, names, path, pid) == [op |-> o, h |-> h, name |-> name, names |-> names, path |-> path, pid |-> pid, kind |-> "", val |-> 0]
+TopOp == O("top", 0, "", <<>>, <<>>, "")
+MkOp(p, cs) == O("mk", 0, "", SetToSeq(cs), p, "")
+NewOp(h, n) == O("new", h, n, <<>>, <<>>, "")
+NestOp(h, n) == O("nest", h, n, <<>>, <<>>, "")
+AddOp(h, k) == O("add", h, "", <<>>, <<>>, k)
+DesOp(h) == O("destroy", h, "", <<>>, <<>>, "")
+OpenOp(p) == O("open", 0, "", <<>>, p, "")
+CtlSets == { {"cpu", "memory"}, {"cpuacct", "memory", "pids"}, {"cpu", "cpuacct", "memory"} }
+MixedFor(C) == UNION { {
+    <<TopOp, MkOp(<<"x">>, cs), NewOp(1, "x"), DesOp(2)>>,
+    <<TopOp, MkOp(<<"x">>, cs), NewOp(1, "x"), AddOp(2, "p1"), DesOp(2), NewOp(1, "x"), AddOp(3, "p1"), DesOp(3)>>,
+    <<TopOp, AddOp(1, "p1"), AddOp(1, "p2"), MkOp(<<"x">>, cs), NestOp(1, "x"), NewOp(1, "x"), DesOp(3), DesOp(2)>>,
+    <<MkOp(<<>>, cs), TopOp, AddOp(1, "p2"), NewOp(1, "y"), DesOp(2), DesOp(1)>>,
+    <<MkOp(<<>>, cs), TopOp, DesOp(1)>>,
+    <<TopOp, NewOp(1, "x"), MkOp(<<"x", "y">>, cs), NewOp(2, "y"), OpenOp(<<"x", "y">>), DesOp(3), DesOp(2)>>,
+    <<TopOp, MkOp(<<"x">>, cs), OpenOp(<<"x">>), NewOp(1, "x"), OpenOp(<<"x">>), DesOp(3), DesOp(2)>> } :
+      cs \in (SUBSET C) \ {{}, C} }
+Mixed == UNION { { [ctls |-> SetToSeq(C), ops |-> h] : h \in MixedFor(C) } : C \in CtlSets }
+
 Units == { [ver |-> v, ms |-> ms, mib |-> mib] : v \in {1, 2}, ms \in {30, 120}, mib \in {8, 24} }
 
 Vals == {"0", "1", "999", "2147483648", "9007199254740993"}
@@ -46,6 +68,7 @@ FixUint ==
 
 ASSUME ndJsonSerialize("race2.ndjson", SetToSeq(Race2))
 ASSUME ndJsonSerialize("race3.ndjson", IF WithRace3 THEN SetToSeq(Race3) ELSE <<>>)
+ASSUME ndJsonSerialize("mixed.ndjson", SetToSeq(Mixed))
 ASSUME ndJsonSerialize("units.ndjson", SetToSeq(Units))
 ASSUME ndJsonSerialize("fix.ndjson", SetToSeq(FixCpu \cup FixUint))
 ASSUME PrintT(<<"generated", Cardinality(Race2), Cardinality(Units), Cardinality(FixCpu \cup FixUint)>>)
